@@ -13,3 +13,6 @@ rm tevec/tests/seed_demo.rs; git stash pop -q; cp /tmp/seed_demo_$ID.rs tevec/te
 cd /repo; git apply --check $D/patch.diff 2>&1 | head -2 && git apply $D/patch.diff
 echo "== check $P against patched /repo"; cd /verif; ./check $P 2>&1 | grep -E "^VIOLATION|^OK|^KNOWN" | head -4
 git -C /repo checkout -- .; git -C /repo status --short | head -2
+python3 /verif/translator/extract.py /repo /verif/lean/Tv/Generated.lean >/dev/null
+python3 /verif/translator/closures.py /repo /verif/lean/Tv/GenClosures.lean >/dev/null
+python3 /verif/translator/aggs.py /repo /verif/lean/Tv/GenAgg.lean >/dev/null
